@@ -1,4 +1,5 @@
 import Texel.Proofs.Route3
+import Texel.Proofs.NoCollapse
 /-! # C02 — each edge is routed through exactly the hot pixels it meets
 
 Model: `Texel.snapLevel lineIntersects g hot L l` (`pointindex.snapClosestPoints`, hand-written in
@@ -50,6 +51,35 @@ theorem C02_routed_nonempty (g : Grid) (hres : 0 < g.res) (addrs : List Quad) (L
     (ha : deepestAddr g L.p1 = some a) (hin : a ∈ addrs) (l : Nat) (hl : l ≤ g.depth) :
     a.up g l ∈ snapLevel lineIntersects g (hotOf g addrs) L l :=
   routed_nonempty g hres addrs L a ha hin l hl
+
+/-- **C02 (second sentence), ring by ring**: whenever the routed chain of a ring — the concatenation of its routed edges,
+`joinChain (routeRing …)` — has at least three pixels and visits no pixel twice (neither the chain nor the list of pixel hits has a
+duplicate: no two parts of the ring collapse onto a common pixel), the ring comes back from the whole clean-up (`cleanupNewRing`: closing
+duplicate, `kmpDeduplicate`, `splitRing`) as exactly that chain: one shell part for the outer ring (counter-clockwise, turned round if
+need be), one hole part for an inner ring (clockwise). Every grid, level, hot set, ring. (The assembly of the rings of a polygon,
+`dedupeInnersOuters`/`matchInnersToPolygons`, is decided per generated case by the oracle of the `snap` stream.) -/
+theorem C02_second_sentence_ring (g : Grid) (hot : Nat → Quad → Bool) (l : Nat) (isOuter : Bool) (ring : List Pt) (chain : List P)
+    (hj : joinChain (routeRing g hot l (normaliseRing ring (!isOuter))) = some chain)
+    (hnd : chain.Nodup) (hlen : 3 ≤ chain.length) (hhits : (ringHits (routeRing g hot l (normaliseRing ring (!isOuter)))).Nodup) :
+    processRing g hot l isOuter ring = .ok
+      (if isOuter then { outers := #[if windingOK chain.toArray false then chain.toArray else chain.toArray.reverse] }
+       else { inners := #[if windingOK chain.toArray true then chain.toArray else chain.toArray.reverse] } : Split) := by
+  rw [processRing_plain g hot l isOuter ring chain hj hnd hlen hhits, classify_single isOuter chain hlen]
+
+/-- **C02 (second sentence) for a polygon without holes**: if the routed chain of its ring has at least three pixels and visits no
+pixel twice, the tile matrix carries exactly one polygon with exactly one ring — that chain, counter-clockwise, clockwise under the
+reverse flag; the keep option changes nothing -/
+theorem C02_second_sentence_polygon (g : Grid) (hot : Nat → Quad → Bool) (cfg : Config) (l : Nat) (ring : List Pt) (chain : List P)
+    (hj : joinChain (routeRing g hot l (normaliseRing ring false)) = some chain)
+    (hnd : chain.Nodup) (hlen : 3 ≤ chain.length) (hhits : (ringHits (routeRing g hot l (normaliseRing ring false))).Nodup) :
+    processLevel g hot cfg l [ring] = .ok (some #[#[
+      let oc := if windingOK chain.toArray false then chain.toArray else chain.toArray.reverse
+      if cfg.reverse then oc.reverse else oc]]) :=
+  processLevel_plain g hot cfg l ring chain hj hnd hlen hhits
+
+-- non-vacuity: the triangle (2,2) (50,6) (30,60) on the grid below at level 2: chain and hits without duplicates, three pixels
+#guard (joinChain (routeRing ⟨0, 0, 4, 4⟩ (hotOf ⟨0, 0, 4, 4⟩ [⟨0, 0⟩, ⟨12, 1⟩, ⟨7, 15⟩]) 2 [⟨2, 2⟩, ⟨50, 6⟩, ⟨30, 60⟩])) == some [(0, 0), (3, 0), (1, 3)]
+#guard (ringHits (routeRing ⟨0, 0, 4, 4⟩ (hotOf ⟨0, 0, 4, 4⟩ [⟨0, 0⟩, ⟨12, 1⟩, ⟨7, 15⟩]) 2 [⟨2, 2⟩, ⟨50, 6⟩, ⟨30, 60⟩])) == [(3, 0), (1, 3), (0, 0)]
 
 -- non-vacuity: a concrete grid (16×16 pixels of 4 units), hot set and segment — the F1 witness: the line
 -- (10,6)→(7.5,8.5) passes exactly through the included corner (8,8) and is routed through pixel (8,8)
